@@ -7,7 +7,7 @@ CLASSES = ['N', 'T', 'F', 'I0', 'I1', 'I-1', 'I7fffffffffffffff', 'I800000000000
            'I-8000000000000000', 'I-80000000000000000000000000000000', 'I7fffffffffffffffffffffffffffffff', 'I8', 'I81',
            'R0000000000000000', 'R8000000000000000', 'Rnan', 'R7ff0000000000000', 'Rfff0000000000000', 'R3ff8000000000000', 'R47efffffffffffff',
            'S-', 'S61', 'Sc3a9e697a5', 'S6666e280837a7a', 'S6666c2a07a7a', 'Se3808067', 'S3132e2808333', 'S2030c2a0', 'Se280a8', 'S66660b7a', 'S' + ('c3a9' * 40), 'S' + ('61' * 80), 'S302e35', 'S3132',
-           'B-', 'B1', 'B10100101', 'B1010010110', 'B' + '10' * 70,
+           'B-', 'B1', 'B10100101', 'W3.2.10100101', 'W8.8.1111000011110000', 'W1.0.1', 'W5.1.-', 'W16.24.0100000100110001', 'B1010010110', 'B' + '10' * 70,
            'V()', 'V(I1,I2,I3)', 'V(V(V(I1)))', 'V(S61,N,B1)', 'M()', 'M(I1=I2)', 'M(S61=V(I1))',
            'G(I5,M(S6b=I1))', 'G(I0,M(S6b=I1))', 'G(R0000000000000000,M(S6b=I1))', 'G(B-,M(S6b=I1))', 'G(V(),M(S6b=I1))', 'G(S3132,M(S23666d74=I63))', 'G(I5,M(S23666d74=I0))', 'G(I-1,M(S23666d74=I110))', 'G(V(I1),M(S23666d74=Iffffffffffffffff))',
            'G(S3132,M(S23666d74=I1))', 'G(I1,M(S23666d74=S78))']
